@@ -460,6 +460,7 @@ func tail(b []byte, n int) string {
 type c45Case struct {
 	H      pktsim.History `json:"h"`
 	Extras Extras         `json:"extras"`
+	Flush  bool           `json:"flush"` // after the history, relay (recv + ack) every packet still in flight
 }
 
 var c45Kinds = []string{"send", "send", "send", "recv", "recv", "recv", "ack", "ack", "timeout", "update", "block", "time", "close", "replay"}
@@ -474,6 +475,15 @@ func genC45(t *rapid.T) c45Case {
 	}
 	c.Extras.ICA = rapid.Bool().Draw(t, "ica")
 	c.Extras.GMP = rapid.IntRange(0, 2).Draw(t, "gmp")
+	c.Flush = rapid.IntRange(0, 3).Draw(t, "flush") > 0
+	// multi-payload packets only exercise the per-payload paths when every payload succeeds
+	for i := range c.H.Ops {
+		if op := &c.H.Ops[i]; op.K == "send" && len(op.S) > 1 && rapid.Bool().Draw(t, "allok") {
+			for j := range op.S {
+				op.S[j].Out = "ok"
+			}
+		}
+	}
 	return c
 }
 
@@ -540,8 +550,15 @@ func runC45(outer *testing.T) func(t rapid.TB, c c45Case, rec *vx.Case) {
 		}
 		addExtrasRecorded(w, c.Extras, recs)
 		kinds := map[sim.LinkKind]bool{}
+		multiOK := 0
+		note := func(st pktsim.Step) {
+			if st.Op.K == "recv" && st.Res.OK && st.Pkt != nil && st.Pkt.V2 && len(st.Pkt.P2.Payloads) > 1 && !sim.ResultIsNoop(st.Res) {
+				multiOK++
+			}
+		}
 		for i, op := range c.H.Ops {
 			st := pktsim.Exec(w, i, op)
+			note(st)
 			if st.Pkt != nil && (st.HadTx || st.Sent) {
 				kinds[w.Links[st.Pkt.Link].Kind] = true
 			}
@@ -550,6 +567,18 @@ func runC45(outer *testing.T) func(t rapid.TB, c c45Case, rec *vx.Case) {
 				th, _ := proto.Marshal(&st.Pkt.P1.TimeoutHeight)
 				recs[st.Chain].insertBeforeLastBlock(streamItem{Kind: "v1send", Port: st.Pkt.P1.SourcePort, Channel: st.Pkt.P1.SourceChannel, TH: th, TS: st.Pkt.P1.TimeoutTimestamp, Data: st.Pkt.P1.Data})
 			}
+		}
+		if c.Flush {
+			n := len(c.H.Ops)
+			for _, p := range append([]*sim.Pkt(nil), w.Pkts...) {
+				if !w.HasCommitment(p) {
+					continue
+				}
+				note(pktsim.Exec(w, n, pktsim.Op{K: "recv", P: p.Idx, H: -1, Sig: p.Idx % 3}))
+				note(pktsim.Exec(w, n+1, pktsim.Op{K: "ack", P: p.Idx, H: -1, Sig: (p.Idx + 1) % 3}))
+				n += 2
+			}
+			rec.Class("flushed")
 		}
 		for _, p := range w.Pkts {
 			kinds[w.Links[p.Link].Kind] = true
@@ -569,6 +598,7 @@ func runC45(outer *testing.T) func(t rapid.TB, c c45Case, rec *vx.Case) {
 				}
 			}
 		}
+		rec.Add("multi_payload_recv_ok", int64(multiOK))
 		rec.Add("blocks", int64(blocks))
 		rec.Add("blocks_with_txs", int64(ibcBlocks))
 		rec.Add("committed_writes", int64(writes))
